@@ -431,7 +431,8 @@ def build_T25(tree):
     if call.args:
         raise Unsupported('_get_pffg_item is no longer called with keyword arguments only')
     for k in call.keywords:
-        if k.arg in ('segment_number', 'dimension_index_values', 'plane_position', 'source_image_index'):
+        if k.arg in ('segment_number', 'dimension_index_values', 'plane_position', 'source_image_index',
+                     'are_spatial_locations_preserved'):
             entries.append(f'call | {k.arg}={_norm(k.value)}')
     item = find_func(tree, 'Segmentation._get_pffg_item')
     aiv = [n for n in ast.walk(item) if isinstance(n, ast.Assign) and ast.unparse(n.targets[0]) == 'all_index_values']
